@@ -556,6 +556,25 @@ def rule_scale(ctx):
             r.violation(key2, C.loc(f, rt), f"an exactly-zero result is returned with exponent "
                         f"`{C.unparse(rt.value.elts[1])}` instead of -inf: in a sum or stack of "
                         "slices it sets the common exponent and the non-zero slices underflow to 0")
+        # (sensitivity map) the early return is taken only for a scale that *is* zero, and only on request
+        key3 = ctx.key(f, "C19-SCALE", "zero-test")
+        g = C.enclosing_ifs(f, rt)
+        t = g[0][0].test if g and g[0][1] else None
+        conj = t.values if isinstance(t, ast.BoolOp) and isinstance(t.op, ast.And) else ([t] if t is not None else [])
+        fname = factor.id if isinstance(factor, ast.Name) else None
+        is_zero = [c for c in conj if isinstance(c, ast.Compare) and len(c.ops) == 1 and isinstance(c.ops[0], ast.Eq)
+                   and fname and fname in C.unparse(c.left) and isinstance(c.comparators[0], ast.Constant)
+                   and c.comparators[0].value == 0]
+        if t is None:
+            r.violation(key3, C.loc(f, rt), "the zero result is returned unconditionally / in an else branch")
+        elif isinstance(t, ast.BoolOp) and isinstance(t.op, ast.Or):
+            r.violation(key3, C.loc(f, rt), f"`{C.unparse(t, 60)}`: with `or` the contraction is reported as exactly zero "
+                        f"whenever the option is on, whatever the scale")
+        elif not is_zero:
+            r.violation(key3, C.loc(f, rt), f"`{C.unparse(t, 60)}` does not test the scale factor for equality with zero: a "
+                        f"non-zero intermediate ends the contraction with the value 0")
+        else:
+            r.ok(key3, C.loc(f, rt), f"returned only under `{C.unparse(t, 60)}`")
     return r
 
 
